@@ -175,7 +175,12 @@ pub fn stress_inputs(tier: Tier) -> Vec<(String, String)> {
         }
         v.push((format!("payload type nested to depth {depth}"), format!("start S struct S($X) terminal T {{ $X: {ty} }}")));
     }
+    // names made of non-letters (the capitalisation rules look for the first letter)
+    v.push(("identifier of 65 000 underscores and a letter".into(), format!("start {0} struct {0} terminal T {{ }}", format!("{}A", "_".repeat(32_400)))));
+    v.push(("terminal enum named with 60 000 underscores and digits".into(), format!("start S struct S terminal {}9T {{ }}", "_0".repeat(30_000))));
     // width instead of depth: lists that a recursive conversion would walk one frame per element
+    v.push(("payload type path with 21 000 one-letter segments (63 KB)".into(), format!("start S struct S($X) terminal T {{ $X: {}Q }}", "a::".repeat(21_000))));
+    v.push(("generic payload type with 21 000 one-letter arguments (63 KB)".into(), format!("start S struct S($X) terminal T {{ $X: G<{}b> }}", "a, ".repeat(21_000))));
     let segs: Vec<String> = (0..5000).map(|i| format!("m{i}")).collect();
     v.push(("payload type path with 5000 segments".into(), format!("start S struct S($X) terminal T {{ $X: {}::Q }}", segs.join("::"))));
     let args: Vec<String> = (0..5000).map(|i| format!("A{i}")).collect();
